@@ -207,6 +207,11 @@ func checkC01Memory(doc []byte) *Failure {
 	if !bytes.Equal(buf, doc) {
 		return &Failure{Check: "input-mutated", Observed: "Parse modified the caller's buffer: " + firstDiff(string(doc), string(buf))}
 	}
+	for i := len(doc); i < len(backing); i++ {
+		if backing[i] != 0xAA {
+			return &Failure{Check: "input-mutated", Observed: fmt.Sprintf("Parse wrote into the caller's backing array beyond len(source): byte %d of %d (spare capacity %d) is now %#x", i, len(backing), spare, backing[i])}
+		}
+	}
 	if f := tilingCheck(doc, blocks); f != nil {
 		return f
 	}
